@@ -69,12 +69,19 @@ class watchdog(object):
     def __init__(self, seconds):
         self.seconds = seconds
 
+    # The budget is CPU time of this process (ITIMER_PROF): a computation that does not terminate burns CPU and is
+    # caught after `seconds`, while a busy machine (many checks side by side) cannot turn a slow case into a false
+    # "non-termination".  A wall-clock backstop 30 times larger catches a case that blocks without using CPU.
     def __enter__(self):
         self.old = signal.signal(signal.SIGALRM, _alarm)
-        signal.setitimer(signal.ITIMER_REAL, self.seconds)
+        self.oldprof = signal.signal(signal.SIGPROF, _alarm)
+        signal.setitimer(signal.ITIMER_REAL, self.seconds * 30)
+        signal.setitimer(signal.ITIMER_PROF, self.seconds)
 
     def __exit__(self, *exc):
+        signal.setitimer(signal.ITIMER_PROF, 0)
         signal.setitimer(signal.ITIMER_REAL, 0)
+        signal.signal(signal.SIGPROF, self.oldprof)
         signal.signal(signal.SIGALRM, self.old)
         return False
 
